@@ -171,6 +171,48 @@ def run(ctx):
                    "" if ok else f"the escape class {'also admits ' + repr(extra[:6]) if extra else 'misses ' + repr(sorted(HEX - cs)[:6])} (repeat {lo}..{hi}): an invalid escape is kept as valid, so the result is not in normal form and does not re-parse to itself")
     ctx.sites(R8, n8, 3, "percent-escape sub-patterns in util/url.py")
 
+    # ------------------------------------------------------------------ R9 a valid escape is never encoded again
+    R9 = ctx.rule("C14-R9", "no double-encoding of valid escapes: when the encoder re-encodes a '%' (writes it as %25) it has established, for THAT '%', that it does not start a valid escape - a decision taken for the whole component (all of its '%' are valid escapes, or else every '%' is re-encoded) double-encodes the valid escapes that share a component with a stray '%'", "E10 effect rows of _encode_invalid_chars")
+    from ..rows import GenRule as _GR9, effect_rows as _er9
+    from ..terms import K as _K9, T as _T9, destruct as _d9, subterms as _sub9
+    enc9 = m.func(f"{URL}._encode_invalid_chars")
+    rows9 = [r for r in _er9(ctx, enc9, _GR9(ctx, enc9.module), None, budget=900000) if r.returns]
+    n_rec9 = 0
+    verdict9 = None
+    for r in rows9:
+        # the byte under consideration on this row: the operand of `<byte>.decode() in allowed` / `ord(<byte>) < 128`
+        cands = set()
+        for k_, v_ in r.st.ts.items():
+            if isinstance(k_, tuple) and len(k_) == 4 and k_[0] == "cmp":
+                if k_[2] == "in" and _d9(str(k_[1]))[0] == "decode":
+                    cands.add(_d9(str(k_[1]))[1][0])
+                if k_[2] == "<" and k_[3] == "128" and _d9(str(k_[1]))[0] == "ord":
+                    cands.add(_d9(str(k_[1]))[1][0])
+        if len(cands) != 1:
+            continue
+        B = next(iter(cands))
+        escaped = any(e_[0] == "call" and isinstance(e_[1], str) and e_[1].endswith((".extend", ".append")) and any(isinstance(a_, str) and "hex(" in a_ for a_ in e_[2:]) for e_ in r.ev)
+        if not escaped or r.cmp(B, "==", _K9(b"%")) is False:
+            continue  # nothing is escaped here, or the escaped byte is known not to be '%'
+        n_rec9 += 1
+        # the escaped byte may be a '%': was anything decided about what follows THIS '%' (a slice / pattern relative to its position)?
+        local = [k_ for k_ in r.st.ts if isinstance(k_, tuple) and len(k_) == 4 and k_[0] == "cmp" and k_[1] != B and not str(k_[1]).startswith(("ord(", "decode("))
+                 and B in set(_sub9(str(k_[1]))) | set(_sub9(str(k_[3]))) and "count(" not in str(k_[1]) + str(k_[3])]
+        # ... or a pattern applied at this position (its truth is a fact of the row)
+        idx_terms = {x_ for x_ in _sub9(B) if _d9(x_)[0] == "each"}
+        local += [k_ for k_ in r.st.facts if isinstance(k_, str) and "rx:" in k_ and any(i_ in k_ for i_ in idx_terms)]
+        whole = [k_ for k_ in r.st.ts if isinstance(k_, tuple) and len(k_) == 4 and k_[0] == "cmp" and "count(" in str(k_[3]) + str(k_[1])]
+        verdict9 = (bool(local), bool(whole), r)
+        break
+    if verdict9 is None:
+        ctx.ob(R9, enc9.qual, "encoder idiom not recognised: the per-escape clause is not decided (provenance only, DESIGN 13.2)", True)
+    else:
+        local_ok, whole_comp, r = verdict9
+        ctx.ob(R9, enc9.qual, "a re-encoded '%' was examined on its own", local_ok,
+               "" if local_ok else "the '%' is re-encoded because the component as a whole is not fully percent-encoded (count of valid escapes != count of '%'): in `/%41%` the valid escape %41 becomes %2541",
+               witness=r.witness(), node=enc9.node)
+    ctx.sites(R9, len(rows9), 4, "rows of the encoder")
+
     # ------------------------------------------------------------------ R7 no quadratic loop idiom
     R7 = ctx.rule("C14-R7", "no quadratic idiom inside loops over the input in util/url.py: no str accumulation by +, no insert(0)/pop(0), no membership/index/count on a list grown in the loop", "E8")
     nloops = 0
